@@ -73,7 +73,20 @@ impl<F: Float> Transformer<Array2<F>, Array2<F>> for NormScaler {
 
         let norms = match &self.norm {
             Norms::L1 => x.map_axis(Axis(1), |row| F::cast(row.norm_l1())),
-            Norms::L2 => x.map_axis(Axis(1), |row| F::cast(row.norm_l2())),
+            // the squares of very small (or very large) entries under- or overflow: measure the
+            // sample relative to its largest entry
+            Norms::L2 => x.map_axis(Axis(1), |row| {
+                let max = F::cast(row.norm_max());
+                if max > F::zero() && max.is_finite() {
+                    let sum = row.iter().fold(F::zero(), |acc, &el| {
+                        let q = F::cast(el) / max;
+                        acc + q * q
+                    });
+                    max * sum.sqrt()
+                } else {
+                    max
+                }
+            }),
             Norms::Max => x.map_axis(Axis(1), |row| F::cast(row.norm_max())),
         };
 
